@@ -13,7 +13,10 @@ FragsMarkup == { <<60>>, <<62>>, <<47>>, <<63>>, <<33>>, <<45>>, <<45, 45>>,
            <<68, 79, 67, 84, 89, 80, 69>>, <<100>>, <<120, 109, 108>>, <<32>>,
            <<97>>, <<98>>, <<34>>, <<39>>, <<61>>, <<195, 169>> }
 
-Seeds == { <<60,33,45,45,45,62,45,45,62>>,                         \* <!--->-->
+Seeds == { <<60,97,62,60,47,97,12,62,60,47,97,32,12,32,9,13,10,62>>,   \* <a></a FF></a SP FF SP TAB CR LF>   (form feed is white space for Rust, not for XML)
+           <<60,97,62,12,120,12,60,47,97,62,12>>,                  \* <a>FF x FF</a>FF
+           <<60,97,12,98,61,34,49,34,11,47,62>>,                   \* <a FF b="1" VT/>
+           <<60,33,45,45,45,62,45,45,62>>,                         \* <!--->-->
            <<60,33,91,67,68,65,84,65,91,93,93,93,93,62>>,          \* <![CDATA[]]]]>
            <<60,97,32,98,61,39,34,62,39,62>>,                      \* <a b='">'>
            <<60,63,63,62>>, <<60,63,62,120>>,                      \* <??>  <?>x
